@@ -527,6 +527,20 @@ def _names(chk, facts):
                         for val, tgt in bb2.term.targets:
                             if val == 1:
                                 some_targets.add(tgt)
+        if finds and not some_targets:
+            # `.. .find(..).cloned().ok_or_else(|| error)` returned as it is: nothing found is an error by what `ok_or(_else)` does
+            holders = {t.dst.local for _, t in finds}
+            via_ok_or = False
+            for _ in range(4):
+                for bb2, t2 in b.calls():
+                    if t2.args and t2.args[0].place is not None and t2.args[0].place.local in holders and not t2.args[0].place.proj:
+                        if re.search(r"Option::<&?(mut )?T>::(cloned|copied|as_ref|map|inspect)$", t2.callee):
+                            holders.add(t2.dst.local)
+                        elif re.search(r"Option::<T>::(ok_or_else|ok_or)$", t2.callee) and t2.dst.local == 0 and not t2.dst.proj:
+                            via_ok_or = True
+            if via_ok_or:
+                chk.ob("R-C04-5", f"lookup:{label}", True, f"{label}: the result of the search is returned through `ok_or(_else)`: nothing found is an error ({len(finds)} find call(s))", f"{b.file}:{b.line}")
+                continue
         if not finds or not some_targets:
             chk.ob("R-C04-5", f"lookup:{label}", False, f"{label}: no `find` whose result is tested (the rule no longer sees the lookup)", f"{b.file}:{b.line}")
             continue
